@@ -1217,5 +1217,19 @@ pub fn shapes(n_random: usize) -> Vec<Shape> {
     }
     out.push(shape_of(vec![el("span", vec![cls("root-self-closed")], vec![]), tx("after")], &mut g.r));
     out.push(shape_of(vec![el("pre", vec![], vec![tx("    "), Tmpl::Block(String::new())])], &mut g.r));
+    // 11. static text and elements AFTER a closed raw-text / RCDATA sibling (with and without children), at several
+    // depths, in static and dynamic subtrees: the escaping of text depends on the element that contains it only
+    for (raw, content) in [("style", "p{}"), ("script", "var a=1;"), ("textarea", "v"), ("noscript", "n"), ("title", "T")] {
+        for attrs in [vec![idp("s")], vec![dynp()]] {
+            out.push(shape_of(
+                vec![el("div", vec![], vec![el("section", attrs.clone(), vec![el(raw, vec![], vec![tx(content)]), tx("1 < 2 & <b>3</b>"), el("p", vec![], vec![tx("a<b")]), tx("tail & >")])])],
+                &mut g.r,
+            ));
+            out.push(shape_of(
+                vec![el("div", vec![], vec![el("section", attrs.clone(), vec![el("div", vec![], vec![el("p", vec![], vec![el(raw, vec![idp("r")], vec![tx(content)])]), tx("x<y")]), tx("after & all"), el(raw, vec![], vec![]), tx("<i>&amp;</i>")])])],
+                &mut g.r,
+            ));
+        }
+    }
     out
 }
